@@ -173,6 +173,16 @@ def run(ctx):
         t = gen.dom_tree(rng, max_nodes=rng.choice([5, 20, 60]), max_depth=rng.choice([1, 3, 5]), int_keys=0.0,
                          key=tricky_key, leaf=lambda r: gen.dom_scalar(r))
         trees.append(t)
+        if len(trees) % 6 == 0:
+            # twins: distinct sub-dicts with equal content in the same (unsorted) key sequence, as siblings and on
+            # different levels (equal blocks are common in real dict files: pumpA { .. } pumpB { .. })
+            subs = [(k, v) for k, v in t.items() if isinstance(v, dict) and len(v) >= 2]
+            blk = copy.deepcopy(subs[0][1]) if subs else {"rpm": 1500, "flow": 2.5, 3: "x", "housing": {"width": 1, "depth": 2}}
+            tw = dict(t)
+            tw["twinB_" + str(len(trees))] = copy.deepcopy(blk)
+            tw["AtwinA"] = copy.deepcopy(blk)
+            tw["holder"] = {"zz": 1, "inner": copy.deepcopy(blk), "aa": [copy.deepcopy(blk)]}
+            trees.append(tw)
     if ctx.tier == "thorough":
         pool = [2, -1, 10, "a", "B", "ab"]
         for n in range(0, 5):
